@@ -393,7 +393,7 @@ def p1reader_obligations(eng):
             for h2 in (True, False):
                 s2 = st_h.fork(); tag = f"__l{next(_calls)}"
                 rd2, buf2 = mk_p1reader(s2, h2, tag=tag, eng=e)
-                s2.heap[rd.oid] = (s2.heap[rd2.oid][0], s2.heap[rd2.oid][1]); del s2.heap[rd2.oid]
+                adopt(s2, rd, rd2)
                 outs.append(s2)
             return outs
         def inv(st_, e, rd=rd, gt0=gt0, cn=cn):
